@@ -60,16 +60,15 @@ Theorem C24_compressed_file_mtime : forall mtime now, compressedFileMtime now mt
 Proof. exact compressed_mtime. Qed.
 Print Assumptions C24_compressed_file_mtime.
 
-(* a compressed sibling found on disk: its time is the file's when it is re-created (file at least 1 s newer) or equal *)
-Theorem C24_sibling_validator : forall now orig sib, siblingStale orig sib = true \/ sib = orig ->
-  compressedVariantMtime now orig (Some sib) = orig.
+(* a compressed sibling found on disk, older or NEWER than the file or of the same time: the compressed variant served
+   carries the file's modification time (a sibling whose time differs is re-created; repaired defect: only an OLDER
+   sibling used to be re-created, so after a roll-back to an older file gzip clients got the previous content) *)
+Theorem C24_sibling_validator : forall now orig sib, compressedVariantMtime now orig (Some sib) = orig.
 Proof. exact sibling_ok. Qed.
 Print Assumptions C24_sibling_validator.
-(* FULL statement "for every sibling" is false: a sibling NEWER than the file is served with its own time and content
-   (finding stale-compressed-sibling) *)
-Theorem C24_sibling_validator_refuted : exists now orig sib, compressedVariantMtime now orig (Some sib) <> orig.
-Proof. exact sibling_refuted. Qed.
-Print Assumptions C24_sibling_validator_refuted.
+Theorem C24_sibling_kept_iff_same_time : forall orig sib, siblingStale orig sib = false <-> sib = orig.
+Proof. exact sibling_kept_iff. Qed.
+Print Assumptions C24_sibling_kept_iff_same_time.
 
 (* otherwise 200 with the full content of the served variant (the file itself unless a compressed variant was chosen:
    then its length is the codec variable zlen and Content-Encoding names the negotiated coding; that it decodes to the
